@@ -1202,3 +1202,16 @@ Proof.
 Qed.
 
 End FsCount.
+
+(** * Part VIII — the interpretive choice made explicit *)
+
+(** under the other reading of "the endpoint cannot be reached" (the failed poll
+    says nothing, the loaded rule set is kept) the HTTP provider is NOT right: it
+    unloads the rule set at the first failed poll and creates it again afterwards *)
+Definition hh_reading : list http_event := [(0, RHttp 200 CtYaml (CValid 1)); (0, RConnErr); (0, RHttp 200 CtYaml (CValid 1))].
+
+Theorem http_reading_keep_refuted :
+  exists h, trace_ok (accepts O_all) (mk_trace (http_views_r false h) (map h_calls (snd (http_run O_all h)))) <> true /\
+            trace_ok (accepts O_all) (mk_trace (http_views_r true h) (map h_calls (snd (http_run O_all h)))) = true /\
+            flat_map (fun x => map p_kind (h_calls x)) (snd (http_run O_all h)) = [KCreated; KDeleted; KCreated].
+Proof. exists hh_reading. vm_compute. splits; try reflexivity. discriminate. Qed.
